@@ -44,6 +44,8 @@ def run_one(patch):
         env = dict(ENV, VERIF_REPO=wt, VERIF_OUT=out)
         r = subprocess.run([os.path.join(VERIF, "bin", "govc"), "check", "--tier", meta["tier"], meta["property"]], env=env, capture_output=True, text=True, cwd=VERIF)
         viol = [l for l in r.stdout.splitlines() if l.startswith("VIOLATION") or l.startswith("failed obligation")]
+        viol.sort(key=lambda l: (not l.startswith("VIOLATION"), "(timeout)" in l[:200] or "(unknown)" in l[:200]))  # decisive failures first
+        viol = [l[:260] for l in viol]
         if meta["kind"] == "must-pass":
             ok = r.returncode == 0
             return name, "ok" if ok else "FALSE-ALARM", "; ".join(viol)[:400]
@@ -52,7 +54,7 @@ def run_one(patch):
             ok = any(meta["expect"] in l for l in viol)
             if not ok:
                 return name, "WRONG-OBLIGATION", "; ".join(viol)[:600]
-        return name, "ok" if ok else "SURVIVED", (suite + " " + ("; ".join(viol) or r.stdout[-300:] + r.stderr[-300:]))[:400]
+        return name, "ok" if ok else "SURVIVED", (suite + " " + ("; ".join(viol) or r.stdout[-300:] + r.stderr[-300:]))[:1500]
     finally:
         subprocess.run(["git", "-C", REPO, "worktree", "remove", "--force", wt], capture_output=True)
         shutil.rmtree(scratch, ignore_errors=True)
